@@ -267,6 +267,28 @@ Theorem C17_bridge_connect_by_name : forall c ssap sn,
 Proof. exact bridge_connect_by_name. Qed.
 Print Assumptions C17_bridge_connect_by_name.
 
+(* nfc.llcp.socket.Socket hands its arguments to the controller unchanged (0, '', b'', None are not reinterpreted) *)
+Theorem C17_bridge_socket_bind : forall c i arg, gen_c17_Socket_bind (do_bind c) i arg = do_bind c i arg.
+Proof. exact bridge_socket_bind. Qed.
+Print Assumptions C17_bridge_socket_bind.
+Theorem C17_bridge_socket_connect : forall c i d, gen_c17_Socket_connect (do_connect c) i d = do_connect c i d.
+Proof. exact bridge_socket_connect. Qed.
+Print Assumptions C17_bridge_socket_connect.
+Theorem C17_bridge_socket_sendto : forall c i msg d (flags : unit),
+  gen_c17_Socket_sendto (fun i msg d (_ : unit) => do_sendto c i msg d) i msg d flags = do_sendto c i msg d.
+Proof. exact bridge_socket_sendto. Qed.
+Print Assumptions C17_bridge_socket_sendto.
+Theorem C17_bridge_socket_others : forall c i b n k,
+  gen_c17_Socket_listen (do_listen c) i b = do_listen c i b /\
+  gen_c17_Socket_accept (do_accept c) i = do_accept c i /\
+  gen_c17_Socket_recvfrom (do_recvfrom c) i = do_recvfrom c i /\
+  gen_c17_Socket_close (do_close c) i = do_close c i /\
+  gen_c17_Socket_getsockname (fun i => lstep c (LGetsockname i)) i = lstep c (LGetsockname i) /\
+  gen_c17_Socket_setsockopt (fun i (_ : unit) v => do_rcvbuf c i v) i tt b = do_rcvbuf c i b /\
+  gen_c17_Socket_resolve (fun n => do_resolve c n k) n = do_resolve c n k.
+Proof. exact bridge_socket_others. Qed.
+Print Assumptions C17_bridge_socket_others.
+
 (* non-vacuity: a concrete history - bind by name, listen, connect by name from the peer, transfer, accept;
    a datagram sent and received; close frees address 16 and the name *)
 Definition nm_a : name := nm 0.
